@@ -8,6 +8,7 @@ import Gzx.Driver.C06
 import Gzx.Driver.C06Det
 import Gzx.Driver.C06Row128
 import Gzx.Driver.C06Rows
+import Gzx.Driver.C06Rest
 import Gzx.Driver.C07
 import Gzx.Driver.C07QREnc
 import Gzx.Driver.C08
@@ -40,6 +41,7 @@ def dispatch (line : String) : String :=
   | "c06det" :: rest => C06Det.handle rest
   | "row128" :: rest => C06Row128.handle rest
   | "c06rows" :: rest => C06Rows.handle rest
+  | "c06rest" :: rest => C06Rest.handle rest
   | "c07" :: rest => C07.handle rest
   | "c07m" :: rest => C07QREnc.handle rest
   | "c08" :: rest => C08.handle rest
